@@ -193,9 +193,17 @@ Fixpoint htrace (s : state) (h : hyb) (ops : list hop) : state * hyb * list hrow
   end.
 Fixpoint zl_eqb (a b : list Z) : bool :=
   match a, b with [], [] => true | x :: a', y :: b' => (x =? y)%Z && zl_eqb a' b' | _, _ => false end.
+(* dcrit: entries the model knows only as "uninitialised after realloc" or "computed by the library" ([garbage])
+   match anything (what the library holds there depends on the heap) *)
+Fixpoint zl_wild_eqb (a b : list Z) : bool :=
+  match a, b with
+  | [], [] => true
+  | x :: a', y :: b' => ((x =? garbage)%Z || (x =? y)%Z) && zl_wild_eqb a' b'
+  | _, _ => false
+  end.
 Definition hrow_eqb (a b : hrow) : bool :=
   let '(a1, a2, a3, a4, a5, a6, a7, a8, a9, a10) := a in let '(b1, b2, b3, b4, b5, b6, b7, b8, b9, b10) := b in
-  ((a1 =? b1) && (a2 =? b2) && (a3 =? b3) && (a6 =? b6) && (a7 =? b7))%Z && zl_eqb a4 b4 && zl_eqb a5 b5 && zl_eqb a8 b8
+  ((a1 =? b1) && (a2 =? b2) && (a3 =? b3) && (a6 =? b6) && (a7 =? b7))%Z && zl_wild_eqb a4 b4 && zl_eqb a5 b5 && zl_eqb a8 b8
   && Bool.eqb a9 b9 && Bool.eqb a10 b10.
 Fixpoint hrows_eqb (x y : list hrow) : bool :=
   match x, y with [], [] => true | a :: x', b :: y' => hrow_eqb a b && hrows_eqb x' y' | _, _ => false end.
